@@ -74,8 +74,13 @@ def wf_nodes(chk, n):
         elif r in (1, 2):
             yield 'conceptless', conceptless(rng, gen.fresh_vars(40))
         else:
+            roles = None
+            if r in (3, 4):
+                # roles that END in -of by definition under AMR but are inversions under the default model:
+                # the two models must not influence each other (a memo keyed by role text alone would)
+                roles = [':ARG0', ':ARG1', ':ARG0-of', ':consist-of', ':prep-out-of', ':prep-on-behalf-of', ':mod', ':ARG1-of', ':quant']
             yield 'random', gen.random_tree_node(rng, gen.fresh_vars(40), wf=True,
-                                                 maxdepth=rng.choice([2, 4, 6]))
+                                                 maxdepth=rng.choice([2, 4, 6]), roles=roles)
 
 
 # ---------------------------------------------------------------------------------------
@@ -174,6 +179,14 @@ def run(chk):
         items = spec[1]['items']
         try:
             g = patient(layout.interpret, Tree(node), m)
+            if rng.random() < .3:
+                # history: calls documented as NOT changing their argument run first on the same graph object
+                try:
+                    patient(layout.reconfigure, g, None, m)
+                    patient(penman.encode, g, None, m)
+                    chk.stat('primed-with-reconfigure-and-encode')
+                except Exception:      # noqa: judged by other properties
+                    pass
             if rng.random() < .5:
                 # history: a graph with the SAME ordered triples and top but no markers is queried
                 # first, so an answer cached by triples instead of by markers is exposed
